@@ -9,7 +9,7 @@
    all, any(skip) with occurrence bounds, matched by Brzozowski derivatives (complete for any content model, no
    determinism assumption).  Not covered (absent from this schema; the translator aborts on them): simpleContent,
    mixed content, identity constraints, substitution groups, xsi:type, attribute wildcards, list/union types. *)
-From Coq Require Import String List ZArith Bool Arith.
+From Coq Require Import String Ascii List ZArith Bool Arith.
 From LNML Require Import Lib.Dec Lib.Regex Model.Gds Model.Validate.
 Import ListNotations.
 Open Scope string_scope.
@@ -151,13 +151,22 @@ Definition string_ok (st : stype) (s : string) : bool :=
   match st_enums st with [] => true | es => mem s es end &&
   match st_pats st with [] => true | ps => existsb (fun r => match_string r s) ps end.
 
+(* xs:anyURI: only the references free of  % : # [ ]  (relative paths) are in the model's lexical space; for these
+   libxml2's structural URI check has nothing to object (the remaining cases are outside the model, see C02.md) *)
+Definition uri_char_ok (c : ascii) : bool :=
+  let n := nat_of_ascii c in
+  negb (Nat.eqb n 37 || Nat.eqb n 58 || Nat.eqb n 35 || Nat.eqb n 91 || Nat.eqb n 93).
+Fixpoint uri_simple (s : string) : bool :=
+  match s with EmptyString => true | String c r => uri_char_ok c && uri_simple r end.
+
 Definition int_ok (p : prim) (z : Z) : bool :=
   match p with PNonNegInt => (0 <=? z)%Z | PPosInt => (0 <? z)%Z | _ => false end.
 
 (* the lexical representation s is valid for the simple type *)
 Definition lex_ok (st : stype) (s : string) : bool :=
   match st_prim st with
-  | PString | PAnyURI => string_ok st s
+  | PString => string_ok st s
+  | PAnyURI => uri_simple s && string_ok st s
   | PFloat | PDouble => match parse_float s with Some x => float_ok st x | None => false end
   | PNonNegInt | PPosInt => match parse_int s with Some z => int_ok (st_prim st) z | None => false end
   end.
@@ -181,6 +190,17 @@ Definition simple_elem_ok (S : schema) (ty : string) (x : xml) : bool :=
   | _, _ => false
   end.
 
+(* character content of an element of a complex type: none if the content type is empty, white space only if it is
+   element-only (this schema has neither simple nor mixed content) *)
+Fixpoint all_ws (s : string) : bool :=
+  match s with
+  | EmptyString => true
+  | String c r => let n := nat_of_ascii c in
+                  (Nat.eqb n 32 || Nat.eqb n 9 || Nat.eqb n 10 || Nat.eqb n 13) && all_ws r
+  end.
+Definition text_ok (ps : list particle) (t : string) : bool :=
+  match ps with [] => String.eqb t "" | _ => all_ws t end.
+
 (* x is a valid element of complex type c (its own tag is the parent's business) *)
 Fixpoint xsd_valid (fuel : nat) (S : schema) (c : string) (x : xml) : bool :=
   match fuel with
@@ -191,7 +211,7 @@ Fixpoint xsd_valid (fuel : nat) (S : schema) (c : string) (x : xml) : bool :=
     | Some _ =>
       let ps := eff_parts S c in
       attrs_valid S (eff_attrs S c) (x_attrs x) &&
-      String.eqb (x_text x) "" &&
+      text_ok ps (x_text x) &&
       content_ok ps (map x_tag (x_kids x)) &&
       forallb (fun k => match decl_of ps (x_tag k) with
                         | Some ty => match find_ct (s_ctypes S) ty with
@@ -223,8 +243,10 @@ Definition value_ok (S : schema) (a : xattr) (v : value) : bool :=
   | None => false
   | Some st =>
     match st_prim st, v with
-    | PString, VStr s | PAnyURI, VStr s =>
+    | PString, VStr s =>
       printable s && string_ok st s && match xa_fixed a with Some f => String.eqb f s | None => true end
+    | PAnyURI, VStr s =>
+      printable s && string_ok st s && match xa_fixed a with Some f => String.eqb f s | None => true end && uri_simple s
     | PFloat, VFlt x | PDouble, VFlt x => float_ok st x && match xa_fixed a with Some _ => false | None => true end
     | PNonNegInt, VInt z | PPosInt, VInt z => int_ok (st_prim st) z && match xa_fixed a with Some _ => false | None => true end
     | _, _ => false
@@ -407,7 +429,9 @@ Definition agree_exp_cls (T : tables) (S : schema) (c : string) : bool :=
                            kind_prim_ok (ea_kind ea) (st_prim st) &&
                            (* what "%.15f" writes stays inside inclusive decimal bounds only *)
                            match ea_kind ea with
-                           | KFloat => forallb (fun fd => match fst fd with FMinIncl | FMaxIncl => true | _ => false end)
+                           | KFloat => forallb (fun fd => match fst fd with
+                                                          | FMinIncl | FMaxIncl => Nat.leb (snd (snd fd)) 15
+                                                          | _ => false end)
                                                (st_facets st) &&
                                        match st_enums st with [] => true | _ => false end
                            | _ => true
